@@ -1,7 +1,10 @@
-(** extraction of the C16 model: documented panic table, as-is panic mechanisms, Farey walk, index-level text parsers *)
+(** extraction of the C16 model: documented panic table, as-is panic mechanisms, Farey walk, index-level text parsers,
+    serde deserialisers (visitors + JSON text layer), Repr::new with the isize exponent, extended Lehmer gcd, cost bounds *)
 Require Import FastZ.
-From Dashu Require Import Base.Prelude Cross.PanicSpec Cross.PanicAsis Cross.Utf8 Cross.ParseIdx.
+From Dashu Require Import Base.Prelude Cross.PanicSpec Cross.PanicAsis Cross.Utf8 Cross.ParseIdx Cross.ReprNew Cross.SerdeText
+  Int.GrlLehmer Cross.CostClasses.
 Extraction "model.ml"
   documented may exp_band accepts asis known asis_predicts farey_asis auto_prec_zero pow_related
   with_base_asis preason_beq outcome_beq ndig opdiv_long
-  utf8_from float_parse_code ratio_radix_code ratio_prefix_code int_radix_code int_default_code.
+  utf8_from float_parse_code ratio_radix_code ratio_prefix_code int_radix_code int_default_code
+  serde_json_code struct_code repr_new_code repr_new_spec_code lehmer_gcd_ext_asis lehmer_gcd_asis cost_code.
